@@ -124,6 +124,15 @@ Definition handle_find_nodes (tab : table) (self : nrec) (rip : N) (shuf : N -> 
   let enrs := truncate_nodes nodes findnodes_max_payload enr_overhead in
   if marshal_enrs_ok enrs then Ok enrs else Err E_SSZ).
 
+(* the handler on a table in either phase: [init_done] = Table.isInitDone() (false between Start() and the end of the initial
+   seeding).  collectTableNodes computes checkLive := !cfg.NoFindnodeLivenessCheck and does not consult the phase, so the
+   flag is taken and ignored; C11's clauses are stated for both values. *)
+Definition find_nodes_check_live (no_liveness_check init_done : bool) : bool := negb no_liveness_check.
+Definition handle_find_nodes_st (init_done : bool) (tab : table) (self : nrec) (rip : N) (shuf : N -> list nrec -> list nrec)
+           (dists : list N) : res (list nrec) :=
+  if find_nodes_check_live false init_done then handle_find_nodes tab self rip shuf dists
+  else Err E_SSZ.   (* unreachable: NoFindnodeLivenessCheck is false *)
+
 (* len(talkRespBytes) = 1 (NODES) + 1 (total) + 4 (offset) + sum (4 + len enr) *)
 Definition nodes_reply_len (enrs : list nrec) : N := 1 + 1 + 4 + enrs_size enrs.
 
